@@ -386,3 +386,11 @@ def replay(spec):
             if fails:
                 break
     return {'violated': bool(fails), 'detail': fails}
+
+
+RIM = {'lat': -84.6, 'lon': 150.0, 'alt': 15000.0, 'VN': 250.0, 'VE': -200.0, 'VD': 5.0, 'roll': 120.0, 'pitch': -60.0, 'heading': -170.0}
+
+
+def FALLBACK(tier):
+    """numeric oracle specs put to the compiled code when the symbolic run is inconclusive (main.py)"""
+    return [{'kind': 'selfcheck', 'cases': [{'seed': 11}, {'seed': 12}, {'seed': 13}]}, {'kind': 'numeric', 'check': 'table', 'point': {}}]
